@@ -282,11 +282,84 @@ func refBin(op string, a, b V) (Out, bool) {
 	case "lor":
 		return rv(vb(refTruthy(a) || refTruthy(b)))
 	case "dot":
-		if bothStr {
-			return rv(vs(a.Str() + b.Str()))
+		// every scalar pair: concatenation of the documented string forms
+		if x, ok := refRender(a); ok {
+			if y, ok := refRender(b); ok {
+				return rv(vs(x + y))
+			}
 		}
 	}
 	return Out{}, false
+}
+
+// the string form `.` gives a scalar (docs/data-types.md: (string) 42 is "42", (string) true is "1",
+// (string) null is ""; PHP: false is ""; a float the way the language prints it)
+func refRender(v V) (string, bool) {
+	switch v.K {
+	case "s":
+		return v.Str(), true
+	case "i":
+		return strconv.FormatInt(v.I, 10), true
+	case "f":
+		return strconv.FormatFloat(v.Float(), 'g', 14, 64), true
+	case "b":
+		if v.B {
+			return "1", true
+		}
+		return "", true
+	case "n":
+		return "", true
+	}
+	return "", false
+}
+
+// ------------------------------------------------------------ result kinds fixed by the language
+
+// The kind (type) of the result of these operators does not depend on the operands: `.` a string;
+// comparison, identity and logical operators, `!`, (bool) a bool; `<=>`, bit operations, shifts, `~`,
+// (int) an int; `/`, (float) a float. Written from the statement of the property, compared with
+// Spec.Ops.fixedKind through the driver; asserted on EVERY operand pair (mixed kinds, the empty string, null, false,
+// arrays, objects) whenever the evaluation yields a value.
+var fixedKind = map[string]string{
+	"dot": "s",
+	"eq":  "b", "ne": "b", "seq": "b", "sne": "b", "lt": "b", "le": "b", "gt": "b", "ge": "b", "land": "b", "lor": "b",
+	"cmp": "i", "quo": "f",
+	"band": "i", "bor": "i", "bxor": "i", "shl": "i", "shr": "i",
+	"not": "b", "castb": "b", "casti": "i", "bnot": "i", "castf": "f",
+}
+
+// operators defined on every operand pair: an error is a violation
+var alwaysValue = map[string]bool{
+	"dot": true, "eq": true, "ne": true, "seq": true, "sne": true, "lt": true, "le": true, "gt": true, "ge": true,
+	"cmp": true, "land": true, "lor": true, "not": true, "castb": true,
+}
+
+// arithmetic that yields a number (int or float) whenever it yields a value
+var numericResult = map[string]bool{"sub": true, "mul": true, "pow": true, "rem": true, "neg": true}
+
+// kinds the result of op may have when the left operand is a (nil: no claim). `%`: the kind of the
+// dividend (int % int is an int as documented; a float dividend gives a float — notes/C03.md).
+func expectedKinds(op string, a V) []string {
+	if k, ok := fixedKind[op]; ok {
+		return []string{k}
+	}
+	if op == "rem" && isNum(a) {
+		return []string{a.K}
+	}
+	if numericResult[op] {
+		return []string{"i", "f"}
+	}
+	return nil
+}
+
+var kindNames = map[string]string{"s": "string", "b": "bool", "i": "int", "f": "float", "n": "null", "a": "array", "o": "object", "c": "instance"}
+
+func kindList(ks []string) string {
+	var n []string
+	for _, k := range ks {
+		n = append(n, kindNames[k])
+	}
+	return strings.Join(n, " or ")
 }
 
 func refUn(op string, a V) (Out, bool) {
